@@ -278,7 +278,7 @@ class Model(object):
 
     def get_final_results(self):
         # Return x and objval for optimal point (either from xsave+objsave or kopt)
-        if self.objsave is None or self.objopt() <= self.objsave:  # optimal has changed since xsave+objsave were last set
+        if self.objsave is None or self.objopt() <= self.objsave or np.isnan(self.objsave):  # optimal has changed since xsave+objsave were last set
             return self.xopt(abs_coordinates=True).copy(), self.ropt().copy(), self.objopt(), self.model_jac.copy(), self.nsamples[self.kopt], self.eval_num[self.kopt], self.model_jac_eval_nums
         else:
             return self.xsave.copy(), self.rsave.copy(), self.objsave, self.jacsave, self.nsamples_save, self.eval_num_save, self.jacsave_eval_nums
